@@ -185,6 +185,11 @@ def run_ladder(sc, res):
     return res
 
 
+_BAR_LISTS = {}
+_BAR_LENS = {}
+input_consumed = []  # reports of a run having changed the input lists of its scenario
+
+
 def make_run(base, maxc, states=None):
     npairs, times, layout, derived_first, path, recorder, script, otype = base
     PS = [bs.Pair(f"P{i}", "USD") for i in range(npairs)]
@@ -297,12 +302,26 @@ def make_run(base, maxc, states=None):
 
         if derived_first:
             subscribe()
-        if layout == "per-pair":
-            for i in range(npairs):
-                e.add_bar_source(bs.FifoQueueEventSource(events=[bar(i, t) for t in times[i]]))
-        else:
-            evs = sorted(((t, i) for i in range(npairs) for t in times[i]))
-            e.add_bar_source(bs.FifoQueueEventSource(events=[bar(i, t) for t, i in evs]))
+        # The bars of a scenario are loaded ONCE into lists that every run of that scenario is given (each max_concurrent
+        # value, both repetitions, every explored schedule) - the way one compares runs of a backtest. A run must not use
+        # up, or otherwise change, its input.
+        key = (npairs, times, layout)
+        lists = _BAR_LISTS.get(key)
+        if lists is None:
+            if layout == "per-pair":
+                lists = [[bar(i, t) for t in times[i]] for i in range(npairs)]
+            else:
+                evs = sorted(((t, i) for i in range(npairs) for t in times[i]))
+                lists = [[bar(i, t) for t, i in evs]]
+            if len(_BAR_LISTS) > 64:
+                _BAR_LISTS.clear()
+            _BAR_LISTS[key] = lists
+            _BAR_LENS[key] = [len(x) for x in lists]
+        elif [len(x) for x in lists] != _BAR_LENS[key]:
+            input_consumed.append(f"the bar lists given to an earlier run now hold {[len(x) for x in lists]} events, "
+                                  f"{_BAR_LENS[key]} were loaded")
+        for lst in lists:
+            e.add_bar_source(bs.FifoQueueEventSource(events=lst))
         if not derived_first:
             subscribe()
 
@@ -481,6 +500,11 @@ def run_scenario(sc, tier):
         res.executions += 2
         res.transitions += 2
         res.outcomes[r["out"]] += 1
+        if input_consumed:
+            res.violation(f"{PROPERTY}:not-repeatable:input-consumed", f"{input_consumed[0]}; scenario={base} "
+                          f"max_concurrent={maxc}", dict(kind="c2", base=_j(base), maxc=maxc), size=10 * base[0])
+            del input_consumed[:]
+            _BAR_LISTS.clear()
         if observable(r2) != observable(r):
             res.violation(f"{PROPERTY}:not-repeatable", f"two runs differ; scenario={base} max_concurrent={maxc}",
                           dict(kind="c2", base=_j(base), maxc=maxc), size=10 * base[0])
@@ -500,7 +524,24 @@ def run_scenario(sc, tier):
             res.violation(f"{PROPERTY}:events-vs-orders", f"fill events {r['hist']} vs order fills {r['internal']}",
                           dict(kind="c2", base=_j(base), maxc=maxc), size=10 * base[0])
         # clause 1: all suspension patterns within the bound
-        for choices, tr, r in explore(make_run(base, maxc, res.states), bound):
+        from mc.chooser import ReplayError
+        it = explore(make_run(base, maxc, res.states), bound)
+        while True:
+            try:
+                choices, tr, r = next(it)
+            except StopIteration:
+                break
+            except ReplayError:
+                if not input_consumed:
+                    raise
+                r = None
+            if input_consumed:
+                # an earlier run of this scenario used up / changed the bar lists it was given: the runs cannot be compared
+                res.violation(f"{PROPERTY}:not-repeatable:input-consumed", f"{input_consumed[0]}; scenario={base} "
+                              f"max_concurrent={maxc}", dict(kind="c2", base=_j(base), maxc=maxc), size=10 * base[0])
+                del input_consumed[:]
+                _BAR_LISTS.clear()
+                break
             res.executions += 1
             res.transitions += len(tr) + 1
             if r["hist"]:
